@@ -34,6 +34,29 @@ def main(tier, args):
         jobs.append(("bulkrecv:%s" % e, [exe, "bulkrecv", e]))
     if args.only: jobs = [j for j in jobs if j[0].startswith(args.only)]
     vf.run_procs(res, jobs, env={"VERIF_DEADLINE_S": str(dl)}, log=log)
+    # two loops in two threads, free-running under ThreadSanitizer: own-stream oracle in the harness, every TSan report becomes a violation race:<file:line>
+    if not args.only or args.only.startswith("mt"):
+        import subprocess, re
+        mt = vf.build("C06/mt_tsan", [vf.VERIF + "/checks/C06/mt_harness.cpp"], vf.module_sources("event", "network", "util/buffer.cpp", "util/fd.cpp", "util/string.cpp", "util/fs.cpp", "util/serializer.cpp"), mode="tsan",
+                      plain_srcs=[vf.VERIF + "/engine/sched/log_stub.cpp"])
+        for e in ("epoll", "select"):
+            env = dict(os.environ, TSAN_OPTIONS="exitcode=0:halt_on_error=0:report_signal_unsafe=0:second_deadlock_stack=1")
+            try:
+                pr = subprocess.run([mt, e, "8" if tier == "quick" else "40"], capture_output=True, timeout=600, env=env)
+                out, err, rc = pr.stdout.decode("latin-1"), pr.stderr.decode("latin-1"), pr.returncode
+            except subprocess.TimeoutExpired as ex:
+                out, err, rc = (ex.stdout or b"").decode("latin-1"), (ex.stderr or b"").decode("latin-1"), "timeout"
+            res.runs += 1; res.absorb(out, "mt:" + e)
+            log.write("=== mt:%s rc=%s\n%s\n--- stderr\n%s\n" % (e, rc, out[-8000:], err[-12000:]))
+            if rc != 0: res.errors.append("mt:%s: harness exit %s; stderr tail: %s" % (e, rc, err[-1200:]))
+            seen_races = set()
+            for blk in err.split("WARNING: ThreadSanitizer: ")[1:]:
+                kind = blk.split("\n", 1)[0].split(" (pid")[0].strip().replace(" ", "-")
+                m = re.search(r"#\d+ (\S.*?) (\S*/modules/(\S+?)):(\d+)", blk)          # innermost frame inside the library sources
+                where = "%s:%s" % (os.path.basename(m.group(2)), m.group(4)) if m else "unknown-location"
+                sig = "race:%s" % where if kind == "data-race" else "tsan-%s:%s" % (kind, where)
+                if sig not in seen_races:
+                    seen_races.add(sig); res.viols.append((sig, "two-loops %s: ThreadSanitizer %s in %s" % (e, kind, (m.group(1)[:120] if m else "?")), "mt:" + e))
     # every kind of injected I/O deviation must really have altered a system call of the code under test (the interposer is reached)
     if not args.only:
         for kind in ("wclamp", "weagain", "rclamp", "reagain"):
@@ -53,8 +76,9 @@ def main(tier, args):
                    "connection) and server-stop = cleanup()+initialize(); greeting sent inside both connected callbacks + echo server; each side closing its own end inside its first receive callback (the last two one level shallower)): objects go through several sessions - "
                    "client stop/start, client 1 cleanup()+initialize(), peer-initiated disconnect, auto-reconnect, server stop/start with connections waiting in the listen queue, shutdown(SHUT_WR) from either side, late installation of callbacks inside the "
                    "connected callback, per-connection send-complete against per-descriptor written counters, callback replacement at the end; the clock stands still during a history. (3) bulk lanes with real kernel back-pressure, over a socketpair and over a pipe: "
-                   "sends of 64 KiB-2 MiB through a 4 KiB kernel buffer before/after enable; receives of 1024 B-1 MiB in two step sizes x threshold {0,1500} x {take all, all-but-1, nothing, forward to a second real BufferedFd with a slow reader} x enable before/after the data"
-                   % (depth, maxdev, len(cfgs), "; ".join(pairs), tdepth, len(tcfgs)),
+                   "(4) two threads, each with its own real loop, socketpair and BufferedFd / TcpConnection, free-running under ThreadSanitizer (%d rounds x 3 pairings x 2 back-ends): each receiver must be shown exactly its own 6-7 KB stream (several readv per callback, spill area used) "
+                   "and any ThreadSanitizer report on library data is a violation. Bulk details: sends of 64 KiB-2 MiB through a 4 KiB kernel buffer before/after enable; receives of 1024 B-1 MiB in two step sizes x threshold {0,1500} x {take all, all-but-1, nothing, forward to a second real BufferedFd with a slow reader} x enable before/after the data"
+                   % (depth, maxdev, len(cfgs), "; ".join(pairs), tdepth, len(tcfgs), 8 if tier == "quick" else 40),
               assumptions=["at raw BufferedFd level the harness disables the descriptor in its read-zero callback, as every in-tree user does (DESIGN 1.7)", "bytes below the receive threshold stay buffered (not counted as lost)",
                            "while a receiver is bound, received bytes are due to the receiver instead of the callback; bytes that were already buffered below the threshold when bind() was called are only demanded once a later byte arrives",
                            "after a user-side stop()/disconnect() nothing is demanded of bytes still queued on that side; a disconnected callback is expected only for a close/half-close made by the other side",
